@@ -256,6 +256,8 @@ class FaultMonitor(Monitor):
             resp = self.applied.get(n)
             for i, ins in enumerate(request["params"]["instructions"]):
                 ref = ins.get("customerOrderRef")
+                if plan.get("transport") == "conn_before":
+                    continue  # the request never left: this attempt cannot have placed anything
                 if plan.get("transport") in ("conn_after", "http503", "badjson", "aping") or resp is None:
                     out.add(ref)
                 elif i >= len(resp["result"]["instructionReports"]):
